@@ -34,10 +34,17 @@ fn prior(kind: usize) -> (SparqlDatabase, L) {
             l.insert((a.to_string(), p.to_string(), b.to_string()));
         }
     }
+    if kind == 2 {
+        // all prior content deleted again / only in a named graph: the default graph is empty but the dictionary is not
+        for (a, p, b) in [("http://x/a", "http://x/p", "http://x/b"), ("http://x/c", "http://e/p1", "http://e/o3")] {
+            db.delete_triple_parts(a, p, b);
+        }
+        l.clear();
+    }
     (db, l)
 }
 fn check(name: &str, load: fn(&mut SparqlDatabase, &str)) {
-    for kind in 0..2 { for n in [0usize, 1, 2, 3, 999, 1000, 1001, 2001] {
+    for kind in 0..3 { for n in [0usize, 1, 2, 3, 999, 1000, 1001, 2001] {
         let (mut db, before) = prior(kind);
         assert_eq!(lexical(&db), before);
         let (text, triples) = doc(n);
@@ -48,7 +55,7 @@ fn check(name: &str, load: fn(&mut SparqlDatabase, &str)) {
             let missing: Vec<_> = want.difference(&got).take(3).collect();
             let foreign: Vec<_> = got.difference(&want).take(3).collect();
             panic!("{}: prior content {} ({} quads), document of {} lines: store has {} quads, expected {}; missing e.g. {:?}; foreign e.g. {:?}",
-                name, if kind == 0 { "empty" } else { "non-empty" }, before.len(), n, got.len(), want.len(), missing, foreign);
+                name, ["empty", "non-empty", "emptied again (dictionary still populated)"][kind], before.len(), n, got.len(), want.len(), missing, foreign);
         }
     }}
 }
